@@ -5,6 +5,7 @@ In the style of bpython config files and keymap"""
 from typing import Tuple
 
 SPECIALS = {
+    "C-i": "<TAB>",  # Ctrl-i sends a tab, which curtsies names <TAB>
     "C-[": "<ESC>",
     "C-^": "<Ctrl-6>",
     "C-_": "<Ctrl-/>",
